@@ -15,7 +15,8 @@ EXPLANATION = (
     'rank named for it and nowhere else (blindsend_spec, blindsend_exactly_once); find_destination and '
     'ref_mpi_balance preserve the concatenation in order, give inactive ranks nothing, active ranks differ by at '
     'most one, shares sum to the total (find_destination_spec, balance_spec); allgather/allgatherv/allconcat/bcast '
-    'equal the sequential concatenation (allgather_spec, allgatherv_spec, allconcat_spec, bcast_spec); integer '
+    'equal the sequential concatenation (allgather_spec, allgatherv_spec, allconcat_spec, bcast_spec), the rank-0 '
+    'scatter/gather loops deliver every chunk (scatter_spec, gather_spec); integer '
     'allsum/min/max and MINLOC (lowest rank on ties) equal the sequential result (allsum_spec, min_spec, max_spec, '
     'allminwho_spec); the 40-step bisection of ref_search_selection brackets every k-th element and returns a '
     'value within (max-min)/2^40 of it in exact arithmetic (selection_bracket, selection_value, selection_ends). '
@@ -39,8 +40,6 @@ ASSUMPTIONS = [
     'a rank that returns an error before a collective while others enter it blocks the others: the model returns '
     '`none` (printed `hang`) and the harness refuses to run such an op instead of hanging; the native variant with '
     'negative or overflowing sizes is undefined behaviour in C and rejected as bad-op on both sides',
-    'scatter/gather through rank 0 (ref_mpi_scatter_send/recv, gather_send/recv) are modelled and tied by the '
-    'correspondence stream only; no theorem is claimed for them',
     'the MPI harness is compiled with -fsanitize=address,undefined like the serial ones (leak detection off); the '
     'harness redirects refine\'s diagnostic printf output to /dev/null',
 ]
